@@ -58,6 +58,10 @@ type handler1 struct {
 	// Guards pktBuffer and the client state changes which switch between
 	// buffering and direct sending (snSend is called from both receive loops).
 	sendMutex sync.Mutex
+	// Sleep duration announced by the client and the cancel function of the
+	// running sleep pinger, if any. Used by the MQTT-SN receive loop only.
+	sleepDuration     uint16
+	cancelSleepPinger context.CancelFunc
 	group            *errgroup.Group
 	transactions     *transactions.TransactionStore
 	// for testing
@@ -554,6 +558,12 @@ func (h *handler1) handleConnect(ctx context.Context, snConnect *snPkts1.Connect
 	// transition to the active state, it does not start a new connection.
 	// See doc/specification-interpretation.md
 	if state := h.state.Get(); state == util.StateAwake || state == util.StateAsleep {
+		// The keepalive is the client's responsibility again. This CONNECT
+		// is not forwarded => tell the broker the client is alive.
+		h.stopSleepPinger()
+		if err := h.mqttPing(); err != nil {
+			return err
+		}
 		h.sendMutex.Lock()
 		defer h.sendMutex.Unlock()
 		h.setState(util.StateActive)
@@ -845,7 +855,8 @@ func (h *handler1) handleMqttSn(ctx context.Context, pkt snPkts.Packet) error {
 			// The client goes back to sleep after receiving PINGRESP.
 			// See MQTT-SN specification v. 1.2, chapter 6.14.
 			h.setState(util.StateAsleep)
-			return nil
+			// The client is alive => its sleep period starts again.
+			return h.startSleepPinger(ctx, h.sleepDuration)
 		} else {
 			mqPkt := mqPkts.NewControlPacket(mqPkts.Pingreq).(*mqPkts.PingreqPacket)
 			return h.mqttSend(mqPkt)
@@ -864,10 +875,9 @@ func (h *handler1) handleMqttSn(ctx context.Context, pkt snPkts.Packet) error {
 			return Shutdown
 		} else {
 			h.log.Debug("Going to sleep for %vs", snPkt.Duration)
-			if h.keepAlive != 0 && snPkt.Duration > h.keepAlive {
-				// We must ensure MQTT gateway considers client alive during sleep period.
-				cancelPinger := h.startSleepPinger(ctx)
-				time.AfterFunc(time.Duration(snPkt.Duration)*time.Second, cancelPinger)
+			// We must ensure MQTT broker considers client alive during sleep period.
+			if err := h.startSleepPinger(ctx, snPkt.Duration); err != nil {
+				return err
 			}
 			h.sendMutex.Lock()
 			defer h.sendMutex.Unlock()
@@ -927,16 +937,35 @@ func (h *handler1) handleMqttSn(ctx context.Context, pkt snPkts.Packet) error {
 	}
 }
 
-func (h *handler1) startSleepPinger(ctx context.Context) context.CancelFunc {
-	ctx2, cancel := context.WithCancel(ctx)
+func (h *handler1) mqttPing() error {
+	p := mqPkts.NewControlPacket(mqPkts.Pingreq).(*mqPkts.PingreqPacket)
+	return h.mqttSend(p)
+}
+
+// startSleepPinger keeps the MQTT connection alive on behalf of a sleeping
+// client for the sleep duration the client has announced. If the client does
+// not wake up in time, the pinger stops and the broker closes the connection
+// using its keepalive mechanism.
+func (h *handler1) startSleepPinger(ctx context.Context, sleepDuration uint16) error {
+	h.stopSleepPinger()
+	h.sleepDuration = sleepDuration
+
+	// The last packet forwarded to the broker could have been sent almost
+	// a whole keepalive period ago => we can't wait another period.
+	if err := h.mqttPing(); err != nil {
+		return err
+	}
+
+	ctx2, cancel := context.WithTimeout(ctx, time.Duration(sleepDuration)*time.Second)
+	h.cancelSleepPinger = cancel
+	keepAlive := time.Duration(h.keepAlive) * time.Second
 	h.group.Go(func() error {
 		h.log.Debug("Sleep pinger starts.")
 		defer h.log.Debug("Sleep pinger quits.")
 		for {
 			select {
-			case <-time.After(time.Duration(h.keepAlive) * time.Second):
-				p := mqPkts.NewControlPacket(mqPkts.Pingreq).(*mqPkts.PingreqPacket)
-				if err := h.mqttSend(p); err != nil {
+			case <-time.After(keepAlive):
+				if err := h.mqttPing(); err != nil {
 					return err
 				}
 			case <-ctx2.Done():
@@ -944,7 +973,14 @@ func (h *handler1) startSleepPinger(ctx context.Context) context.CancelFunc {
 			}
 		}
 	})
-	return cancel
+	return nil
+}
+
+func (h *handler1) stopSleepPinger() {
+	if h.cancelSleepPinger != nil {
+		h.cancelSleepPinger()
+		h.cancelSleepPinger = nil
+	}
 }
 
 func (h *handler1) snSend(pkt snPkts.Packet) error {
